@@ -498,4 +498,26 @@ def datetimeValidateC (p : Nat) (str2datetime : List Char → TRes) (v : TVal) :
   | .time _ _ _ _ => .error "TypeError"
   | .other _ => .error "TypeError"
 
+/-! ### raw key values for relationship attributes (`Attribute.validate` → `EntityMeta._get_by_raw_pkval_`) -/
+
+/-- a raw (non-entity) value given for a relationship attribute whose target key is reached through `levels` further entities
+    whose primary key is itself a relationship: each `_get_by_raw_pkval_` hands the value and `from_db` on unchanged, the root
+    key attribute validates it (`rootValidate` = that attribute's `validate(…, from_db=False)`) -/
+def rawKeyValidate (rootValidate : Val → Res) : Nat → Val → Res
+  | 0, v => rootValidate v
+  | n + 1, v => rawKeyValidate rootValidate n v
+
+/-- composite target key: the raw tuple is cut into the columns of the key attributes, each validated by its own root attribute
+    (left to right, the first failure is raised); a tuple of the wrong length is a TypeError -/
+def rawKeyValidateComposite : List (Val → Res) → List Val → Except String (List Val)
+  | [], [] => .ok []
+  | f :: fs, v :: vs =>
+    (match f v with
+     | .error e => .error e
+     | .ok r => match rawKeyValidateComposite fs vs with
+       | .error e => .error e
+       | .ok rs => .ok (r :: rs))
+  | [], _ :: _ => .error "TypeError"
+  | _ :: _, [] => .error "TypeError"
+
 end PonyVerif.Model.Validate
